@@ -33,11 +33,12 @@ def run_one(d):
             t0 = time.time()
             rc, out = sh("cd %s && VERIF_REPO=%s ./check %s --tier quick" % (ROOT, wt, pid))
             wall = round(time.time() - t0, 1)
+            # put back the committed snapshot of what this property regenerates (the run rewrote it from the patched tree)
+            sh("cd %s && git checkout -- $(git ls-files 'lean/RkVerif/Gen/%s*' 'harness/gen/%s*')" % (ROOT, pid, pid.lower()))
         finally:
             if pid in GEN_GROUP:
                 gen_lock.release()
     sh("git -C /repo worktree remove --force %s" % wt)
-    sh("cd %s && git checkout -- $(git ls-files 'lean/RkVerif/Gen/%s*' 'harness/gen/%s*')" % (ROOT, pid, pid.lower()))
     kinds, detail = [], None
     for m in re.finditer(r"VIOLATION property=\S+ replay=(\S+)( no-failing-input-found)?", out):
         try:
